@@ -117,6 +117,35 @@ def c131(ctx):
                         g = (bb, lab)
         ctx.check(R, f, "separator-gate", g is not None, "Some(Ok(edit)) is dominated by the equal edge of line == TX_SEPARATOR",
                   "an edit can be delivered without its transaction separator having been read", pt=pt)
+    # the edit in progress is dropped only at the end of the input: None is answered on the exhaustion edge of the line iterator (or of a
+    # read that returned 0 bytes), or because the iterator was closed earlier -- never because a line *looked* torn (nothing covers the
+    # byte such a judgement would rest on)
+    eof = set()
+    for b in P.switch_blocks(f):
+        srcs = K.cond_sources(f, b.idx)
+        if any(x["k"] == "call" and re.search(r"Iterator>?::next$", x["callee"]) for x in srcs) and any(x["k"] == "discr" for x in srcs):
+            eof.add((b.idx, "sw:0"))
+        if any(x["k"] == "field" and x["f"] == "file" for x in srcs) and any(x["k"] == "discr" for x in srcs) and not any(x["k"] == "call" for x in srcs):
+            eof.add((b.idx, "sw:0"))
+        d_ = b.term.get("discr") or {}
+        dty = None
+        if d_.get("k") in ("copy", "move"):
+            pr = d_["pl"]["p"]
+            dty = pr[-1].get("ty") if pr and isinstance(pr[-1], dict) else (f.locals[d_["pl"]["l"]] if not pr else None)
+        if dty in ("usize", "u64") and \
+                any(x["k"] == "call" and re.search(r"::(read_line|read_until|read)$", x["callee"]) for x in srcs) and \
+                any(v == 0 for v, _t in b.term.get("arms", [])):
+            eof.add((b.idx, "sw:0"))        # `Ok(0) => break`
+        for x in srcs:
+            if x["k"] == "bin" and x["op"] in ("Eq", "Ne") and any(y["k"] == "call" and re.search(r"::(read_line|read_until|read)$", y["callee"]) for o in (x["st"]["rv"]["a"], x["st"]["rv"]["b"]) for y in P.origins(f, o)) \
+                    and any(o.get("k") == "const" and o["c"].get("v") == 0 for o in (x["st"]["rv"]["a"], x["st"]["rv"]["b"])):
+                eof.add((b.idx, "sw:1" if x["op"] == "Eq" else "sw:0"))
+    ctx.floor(R, "end-of-input edges in ManifestIterator::next", len(eof), 2)
+    for pt in kinds["none"]:
+        q = P.reach(f, P.ENTRY, [pt], avoid_edges=eof)
+        ctx.check(R, f, "dropped-only-at-end-of-input", q is None, "None is answered only when the input is exhausted (or the iterator already closed)",
+                  "ManifestIterator::next can answer None -- dropping the edit it was assembling -- before its input is exhausted: damage that merely "
+                  "makes a line look unfinished silently removes a complete, acknowledged edit", pt=pt, path=q)
     # the writer ends every transaction with the separator, after all of its lines
     w = ctx.fn(R, M + "_apply")
     if w:
@@ -449,7 +478,7 @@ def c137(ctx):
         for i, st in enumerate(b.st):
             if st["s"] == "=" and st["rv"]["r"] == "bin" and st["rv"]["op"] in ("Gt", "Ge", "Lt", "Le") and not st["sp"][3]:
                 a, c = st["rv"]["a"], st["rv"]["b"]
-                if any(x["k"] == "call" and x["callee"].endswith("String::len") for x in P.origins(rd, a)) and c.get("k") == "const" and "v" in c["c"]:
+                if any(x["k"] == "call" and re.search(r"(String|str)::len$|str::<impl str>::len$", x["callee"]) for x in P.origins(rd, a)) and c.get("k") == "const" and "v" in c["c"]:
                     lens.append(((b.idx, i), st["rv"]["op"], c["c"]["v"]))
     ctx.floor(R, "reader length gates", len(lens), 1)
     for pt, op, v in lens:
